@@ -288,7 +288,7 @@ func c04bufGen(g *hx.Gen) {
 		}
 	}
 	g.Casef("buf 4096 1 L %s", hx.Hex(append(bytes.Repeat([]byte{'x'}, 4095), "\r\nab"...)))
-	n := g.Scale(8000, 300000)
+	n := g.Scale(6000, 300000)
 	for k := 0; k < n && !g.Done(); k++ {
 		size := g.Pick(0, 16, 16, 16, 16, 17, 17, 20, 32, 33, 64)
 		big := false
